@@ -99,11 +99,16 @@ def build_feed(rng, n_lines, malformed, limit_parsing=False):
         elif roll < 0.85:
             # one in five comes as DF18 (TIS-B / ADS-R carry the address in the same place)
             fr = enc.long_frame(18 if (rng.random() < 0.2 and not limit_parsing) else 17, rng.randrange(8), a, enc.me_unique(rng.choice([0, 23, 25, 27]), counter))
+            if rng.random() < 0.06 or k == 1:
+                # bytes behind the frame (a feeder that pads its records): still this frame
+                fr = fr + bytes(rng.getrandbits(8) for _ in range(rng.choice([1, 2, 7, 14])))
             lines.append(("good", enc.line(fr), a, None))
         elif roll < 0.92:
             # well-formed lines of other formats: processed, but nothing to count
             m = bytearray(rng.getrandbits(8) for _ in range(7))
             enc.setbits(m, 1, 5, rng.choice([0, 4, 5, 11]))
+            if rng.random() < 0.3:
+                m = m + bytearray(rng.choice([0, 0xFF]) for _ in range(rng.choice([1, 7])))  # a short reply padded to the long length
             lines.append(("other", enc.line(bytes(m)), None, None))
         else:
             m = bytearray(rng.getrandbits(8) for _ in range(14))
@@ -233,9 +238,9 @@ def framed(d):
     return t[1:-1] if len(t) >= 2 and t.startswith("*") and t.endswith(";") else None
 
 
-def check_1090(col, binpath, rng, tag, seg_kind, delay_kind, malformed, scratch):
+def check_1090(col, binpath, rng, tag, seg_kind, delay_kind, malformed, scratch, n_lines=None):
     slow = seg_kind == "per_byte" and delay_kind == "gt_timeout"  # a pause behind every byte: keep the feed short
-    lines, _ = build_feed(rng, 3 if slow else rng.randint(20, 90), malformed)
+    lines, _ = build_feed(rng, n_lines or (3 if slow else rng.randint(20, 90)), malformed)
     steps, midline = segment(rng, lines, seg_kind, delay_kind)
     # every third scenario the server goes away right behind the last line: what was sent before
     # the close still has to come out (nothing about 1090's own fate after a disconnect is judged)
@@ -390,11 +395,11 @@ def compare_rows(col, rows, expect, cls, inp, phase):
     return True
 
 
-def check_radar(col, binpath, rng, tag, seg_kind, delay_kind, malformed, disconnect, scratch, limit=None):
+def check_radar(col, binpath, rng, tag, seg_kind, delay_kind, malformed, disconnect, scratch, limit=None, n_lines=None):
     if limit is None:
         limit = rng.random() < 0.25
     slow = seg_kind == "per_byte" and delay_kind == "gt_timeout"
-    lines, expect = build_feed(rng, 3 if slow else rng.randint(20, 70), malformed, limit_parsing=limit)
+    lines, expect = build_feed(rng, n_lines or (3 if slow else rng.randint(20, 70)), malformed, limit_parsing=limit)
     steps, midline = segment(rng, lines, seg_kind, delay_kind)
     opts = ["--filter-time", "100000"]
     if limit:
@@ -596,6 +601,14 @@ def main(a, lcol, col, run_all, scratch, START):
         if thorough or i % 2 == 0 or m != "none":
             jobs.append((f"radar/{tag}", lambda rng, sk=sk, dk=dk, m=m, disc=disc, tag=tag, limit=limit: check_radar(lcol, a.bin, rng, tag, sk, dk, m, disc, scratch, limit)))
         jobs.append((f"1090/{tag}", lambda rng, sk=sk, dk=dk, m=m, tag=tag: check_1090(lcol, a.bin, rng, tag, sk, dk, m, scratch)))
+    # bulk: thousands of lines in one piece (every position of a line relative to the reader's 8 KiB
+    # buffer and to radar's 1 KiB per turn occurs), for 1090 also cut at random
+    for i, (client, sk, n_bulk) in enumerate([("1090", "all_at_once", 10000), ("1090", "random_cuts", 3000), ("radar", "all_at_once", 1500)] + ([("1090", "three_lines", 20000), ("radar", "all_at_once", 4000)] if thorough else [])):
+        tag = f"{sk}/none/bulk#{900 + 3 * i}"
+        if client == "1090":
+            jobs.insert(0, (f"1090/{tag}", lambda rng, sk=sk, tag=tag, n_bulk=n_bulk: check_1090(lcol, a.bin, rng, tag, sk, "none", "semicolon", scratch, n_lines=n_bulk)))
+        else:
+            jobs.insert(0, (f"radar/{tag}", lambda rng, sk=sk, tag=tag, n_bulk=n_bulk: check_radar(lcol, a.bin, rng, tag, sk, "none", "two_hex", "retry", scratch, False, n_lines=n_bulk)))
     if a.replay:
         import json
         r = json.load(open(a.replay))["input"]
